@@ -284,6 +284,7 @@ fn streams() -> RunResult {
         move || {
             let mut pb = ProactorBuilder::new();
             pb.capacity(capacity).buffer_pool_size(std::num::NonZero::new(pool_size).unwrap()).buffer_pool_buffer_len(pool_len);
+            draw_driver(&mut pb);
             let rt = compio_runtime::Runtime::builder().with_proactor(pb).build().expect("runtime");
             rt.block_on(async move {
                 let mut tasks = Vec::new();
@@ -415,7 +416,11 @@ fn streams() -> RunResult {
                                         Ok(Some(b)) => got.borrow_mut()[ci].extend_from_slice(&b),
                                         Ok(None) => break,
                                         // every pool buffer is out (completed but not yet handed to us): documented, retry
-                                        Err(e) if e.kind() == std::io::ErrorKind::ResourceBusy => sim::probe("pool-exhausted-reported"),
+                                        Err(e) if e.kind() == std::io::ErrorKind::ResourceBusy => {
+                                            sim::probe("pool-exhausted-reported");
+                                            // on the fallback pool another pending read may hold the buffers: let it run
+                                            compio_runtime::time::sleep(std::time::Duration::from_micros(10)).await;
+                                        }
                                         Err(e) => {
                                             errs_r.push("io-error", format!("read_managed failed: {e}"));
                                             break;
@@ -428,10 +433,15 @@ fn streams() -> RunResult {
                                     // has already taken off the socket, which no later read can bring back
                                     let mut ended = false;
                                     let mut items = 0usize;
+                                    let mut busy = 0usize;
                                     {
                                         let mut s = each_rd!(&mut rd, |x| x.read_multi(len).boxed_local());
                                         loop {
-                                            match s.next().await {
+                                            let item = s.next().await;
+                                            if !matches!(&item, Some(Err(e)) if e.kind() == std::io::ErrorKind::ResourceBusy) {
+                                                busy = 0;
+                                            }
+                                            match item {
                                                 Some(Ok(b)) => {
                                                     if b.is_empty() {
                                                         ended = true;
@@ -443,6 +453,15 @@ fn streams() -> RunResult {
                                                 Some(Err(e)) if e.kind() == std::io::ErrorKind::ResourceBusy => {
                                                     sim::probe("pool-exhausted-reported");
                                                     items += 1;
+                                                    busy += 1;
+                                                    if busy > 20_000 {
+                                                        // nobody holds a buffer here: the pool cannot stay empty
+                                                        errs_r.push("pool-shrunk", format!("channel {ci}: read_multi reported an exhausted buffer pool {busy} times in a row over 200 ms; every other holder of a buffer is a read whose writer finishes by itself"));
+                                                        break 'outer;
+                                                    }
+                                                    // somebody else's pending read may hold the buffers (fallback pool): let it run
+                                                    compio_runtime::time::sleep(std::time::Duration::from_micros(10)).await;
+                                                    continue;
                                                 }
                                                 Some(Err(e)) => {
                                                     errs_r.push("io-error", format!("read_multi failed: {e}"));
